@@ -51,6 +51,27 @@ HISTORY = {
     "C18-2": ("missed", "C18 driver: reloads that keep the directory but drop the admin's parameter set / find the directory inconsistent"),
     "C19-2": ("correspondence only (round count, no failing input)", "C19 timing cases carry the number of notifications not followed by the start of a hook round; more burst-then-single patterns"),
     "C20-2": ("missed", "C20: the stub pam_vsyslog formats its message (so the sanitizer sees %s arguments); every reply of the corpus also under the debug option, NO-replies of 255..300 bytes, declared lengths up to 65535 with garbage"),
+    # round 3: first run after some generator changes made in anticipation while the seeds were being validated
+    "C01-3": ("caught (argon2id parameter sets with more lanes than CPUs had just been added to the generator)", ""),
+    "C02-3": ("caught (tamper-after-login cases had just been added: the valid record is accepted on the same Dir, then the file is replaced out of band)", ""),
+    "C03-3": ("correspondence only (order of system calls changed, no failing input)", "C03 driver: stores whose base directory never existed / vanished / lost an ancestor: no operation may succeed or create any object"),
+    "C04-3": ("caught", ""),
+    "C05-3": ("caught", ""),
+    "C06-3": ("correspondence only (no failing input)", "C06 driver: body shapes that leave out empty keys or every credential key; after each accepted session-based request the same request with no credential key at all"),
+    "C07-3": ("caught", ""),
+    "C08-3": ("missed", "C08 trace cases: a read-only operation opens each hash file at most once (a second open may already be the writer's new file)"),
+    "C09-3": ("caught", ""),
+    "C10-3": ("translator only (runHook became a method: fact not found)", "tools/facts finds runHook whatever its receiver; C10 driver: a 9 s pattern with hooks (trailing round after 5 s, 32-slot notification queue)"),
+    "C11-3": ("caught in one run, only via the broken obligation extracted_structure in the next (the random histories hit the window only sometimes)", "C11 driver: directed histories - three readers log in as users whose admin status a writer keeps flipping (password and existence constant: every login must succeed)"),
+    "C12-3": ("missed", "C12 driver: a user with 4-9 KiB of auxiliary data in distinguishable lines"),
+    "C13-3": ("caught", ""),
+    "C14-3": ("missed by C14 (reported by C18: reload does not take the new default)", "C14 got an agent-level part (Run/C14a): add / update / login-triggered upgrade through the running agent before and after two reloads that change the default"),
+    "C15-3": ("caught (valid names containing '.user' / '.admin' had just been added to the generators)", ""),
+    "C16-3": ("caught (add / update / set-admin on generated directories incl. empty reservations of both classes had just been added)", ""),
+    "C17-3": ("missed", "C17 driver: verdicts from an oracle that shares no state with the agent (estimator called directly); sequences of requests in one agent whose (user, password) pairs concatenate to the same string, in both orders"),
+    "C18-3": ("missed", "C18 driver: empty / null items in the parameter-set list, null blocks; the loader runs under recover so that a crash is a reported input, not a dead driver"),
+    "C19-3": ("translator only (runHook became a method)", "C19 driver: the caller is built by NewHooksCaller; every other pattern has a second hook that runs longer than the rate limit; coverage is per eligible hook"),
+    "C20-3": ("driver did not build (stub _pam_macros.h lacked _pam_overwrite_n)", "stub header completed from Linux-PAM; the user x password length grid always contains every pair with both fields at or beyond the limit"),
 }
 
 
